@@ -286,14 +286,11 @@ def run(tier, seed, replay):
         "decimal literals are parsed correctly rounded",
     ]
     res.not_shown = ["monotonicity of labels needs dt >= 0 (TempoParameters enforces dt > 0)"]
-    theorems = list(THEOREMS)
+    fw.standard_pipeline(res, ["StepCount"], list(THEOREMS))
     if tier == "thorough":
-        theorems.append("OQuPyVerif.Props.C13Lattice.grid_lattice_full")
-    fw.standard_pipeline(res, ["StepCount"], theorems)
-    if tier == "thorough":
-        ok, out = fw.lake_build(["OQuPyVerif.Props.C13Lattice"])
-        res.oblige("lake build OQuPyVerif.Props.C13Lattice (48 rows x 1001, decide +kernel)", ok,
-                   "" if ok else out[-2000:])
+        ok, out = fw.lake_build(["OQuPyVerif.Props.C13Lattice"], timeout=7000)
+        res.oblige("lake build OQuPyVerif.Props.C13Lattice: grid_lattice_full "
+                   "(48 rows x 1001 end literals, decide +kernel)", ok, "" if ok else out[-2000:])
     built = all(o[1] for o in res.obligations if o[0].startswith("translator"))
     try:
         if built:
